@@ -33,7 +33,11 @@ func VP_C15_crash() {
 	}
 	r, err := Load(f)
 	vp.Assert(err == nil, "Load")
-	ti := vp.Choice(vpLiveCoords() + 1)
+	nc := vpLiveCoords() + 1 // a live coordinate or a fresh one
+	if nc > len(vpCoords) {
+		nc = len(vpCoords)
+	}
+	ti := vp.Choice(nc)
 	x, z := vpCoords[ti][0], vpCoords[ti][1]
 	lens := []int{1, 4093, 4092, 8189}[:2+2*vp.Tier()]
 	n := lens[vp.Choice(len(lens))]
